@@ -40,7 +40,7 @@ SPEC = {
         "C14_derived_set", "C14_derived_set_counts", "C14_subtract", "C14_counter",
         "C14_derived_set_concurrent", "C14_subtract_concurrent", "C14_skeleton_readableSet_SubtractReactive", "C14_counter_concurrent", "C14_sorted_set_concurrent",
         "C14_sorted_set", "C14_sorted_set_spec", "C14_sorted_set_members", "C14_sorted_set_absent_weight",
-        "C14_eviction", "C14_eviction_unique", "C14_eviction_pre",
+        "C14_eviction", "C14_eviction_unique", "C14_eviction_pre", "C14_eviction_concurrent", "C14_eviction_concurrent_safety",
         "C14_waitgroup_sequential", "C14_waitgroup_counter", "C14_waitgroup_only_if", "C14_waitgroup",
         "C14_deadlock_free", "C14_scripts_ranked",
         "C14_derived_set_old_replace_witness", "C14_counter_old_unsubscribe_witness", "C14_waitgroup_old_race_witness",
